@@ -162,7 +162,7 @@ fn gen_headers(rng: &mut Rng, malformed: bool) -> Vec<(String, String)> {
             rng.pick(&CTYPES).to_string()
         } else if name.eq_ignore_ascii_case("content-length") {
             // a declared length that has nothing to do with the body
-            rng.pick(&["18446744073709551615", "9223372036854775808", "99999999999999", "4294967296", "-1", "0", "7", "1e9", "", "12 "]).to_string()
+            rng.pick(&["18446744073709551615", "9223372036854775808", "18446744073709551614", "-1", "0", "7", "1e9", "", "12 "]).to_string()
         } else {
             match rng.below(6) {
                 0 | 1 => gen_text_mode(rng, 16, if malformed { 10 } else { 0 }, !malformed || a2),
